@@ -126,6 +126,10 @@ def _conv_intermediate(ctx, res):
     r2.check_conversion_intermediate(ctx, res)
 
 
+def _conv_signed_cast(ctx, res):
+    r2.check_signed_cast_guarded(ctx, res)
+
+
 def _no_narrowing(ctx, res):
     r2.check_no_operand_narrowing(ctx, res)
 
@@ -222,7 +226,7 @@ PROPS = {
         "abstract interpretation over the sign domain for BigInt results",
     },
     "C08": {
-        "clauses": [r5check.check_conversions, r5check.check_tryfrom_err_carries_input, r5check.check_float_guard, r9.check_float_reads_every_digit, _conv_narrowing, count_ok("biguint/convert.rs", "bigint/convert.rs", floor=100), selftest("R2-count-narrowed"), _conv_intermediate],
+        "clauses": [r5check.check_conversions, r5check.check_tryfrom_err_carries_input, r5check.check_float_guard, r9.check_float_reads_every_digit, _conv_narrowing, count_ok("biguint/convert.rs", "bigint/convert.rs", floor=100), selftest("R2-count-narrowed"), _conv_intermediate, _conv_signed_cast],
         "not_decided": "digit accumulation / overflow position in BigUint::to_uN, high_bits_to_u64 and float rounding (ties-to-even, infinity cut-off), from_f64's shift arithmetic, two's-complement magnitude arithmetic of From<iN>",
         "level_text": "Decides the sign-gate and ownership clauses for every input: BigInt::to_{i64,i128,u64,u128} return Some(a) exactly when a fits, including the MIN edge "
         "(|a| compared with 2^63 / 2^127 read from MIR), negative -> None for unsigned targets, zero -> Some(0); BigUint::from_iN rejects negatives; "
